@@ -41,7 +41,9 @@ def models():
   two = {"subs": [SUB_A, SUB_B], "mode": [[NOQ] * 3, [NOQ] * 2], "inmode": NOQ, "outmode": NOQ,
          "codes": [["FULLY_CONNECTED", "ADD", "TANH"], ["MUL", "GELU"]]}
   nf = lambda si, t: (NAMES if si == 0 else NAMES_B)[t]
-  return {"one_signature": (one, synth.build(one, 0, name_fn=nf)), "two_signatures": (two, synth.build(two, 0, name_fn=nf))}
+  two_rev = dict(two, sigtabrev=True)      # the same model with its signature table in the other order
+  return {"one_signature": (one, synth.build(one, 0, name_fn=nf)), "two_signatures": (dict(two, sigtabrev=False), synth.build(dict(two, sigtabrev=False), 0, name_fn=nf)),
+          "two_signatures_table_reversed": (two_rev, synth.build(two_rev, 0, name_fn=nf))}
 
 
 def patterns(names):
@@ -151,7 +153,7 @@ def main():
             if q.need_calibration:
               ncal += 1
               for si, sub in enumerate(scn["subs"]):
-                sig = proj["sigs"][si]
+                sig = [x_ for x_ in proj["sigs"] if x_["sub"] == si][0]
                 data = [{n: rng.normal(size=proj["subs"][si]["tensors"][t]["shape"]).astype(np.float32) for n, t in sig["ins"]} for _ in range(2)]
                 cal = q.calibrate(data, signature_key=sig["key"], previous_calibration_result=cal)
             res = q.quantize(cal)
@@ -219,7 +221,7 @@ def main():
           q = quantizer.Quantizer(model, rec)
           cal = None
           for si, sub in enumerate(scn["subs"]):
-            sig = proj["sigs"][si]
+            sig = [x_ for x_ in proj["sigs"] if x_["sub"] == si][0]
             data = [{n: rng.normal(size=proj["subs"][si]["tensors"][t]["shape"]).astype(np.float32) for n, t in sig["ins"]} for _ in range(2)]
             cal = q.calibrate(data, signature_key=sig["key"], previous_calibration_result=cal)
           res = q.quantize(cal)
